@@ -284,6 +284,7 @@ class Wait:
     def __init__(self, keys, t_send, timeout, seq):
         self.keys, self.t_send, self.timeout, self.seq = keys, t_send, timeout, seq
         self.late = False       # its deadline passed LATE_MS ago without an answer (reported once)
+        self.deferred = False   # written behind a blocking pop that blocked, on a server that keeps such frames back
 
 
 class HistoryRun:
@@ -431,18 +432,26 @@ class HistoryRun:
                 self.delivered[v] = self.delivered.get(v, 0) + 1
                 if self.waits[ci]:
                     w = self.waits[ci].pop(0)
+                    self.activate(ci, t_recv)
                     if k not in w.keys:
                         self.fail("wrong-key", "client %d waiting on %r was served from %r" % (ci, w.keys, k), step)
                     self.served_now.append((ci, k, w.seq))
             elif t == "na":
                 if self.waits[ci]:
                     w = self.waits[ci].pop(0)
+                    self.activate(ci, t_recv)
                     if w.timeout == 0:
                         self.fail("early-nil", "client %d asked to wait for ever (sent at %d ms) and was answered nil at %d ms" % (ci, w.t_send, t_recv), step)
                     elif t_recv < w.t_send + w.timeout:
                         self.fail("early-nil", "client %d: nil at %d ms, before %d + %d ms" % (ci, t_recv, w.t_send, w.timeout), step)
                     else:
                         self.rep.count("nil.lateness_ms<=%d" % (50 * ((t_recv - w.t_send - w.timeout) // 50 + 1)))
+
+    def activate(self, ci, t):
+        """the call kept back behind the one just answered is executed now"""
+        if self.waits[ci] and self.waits[ci][0].deferred:
+            self.waits[ci][0].deferred = False
+            self.waits[ci][0].t_send = t
 
     def fail(self, kind, why, step, key=None):
         if (kind, key) in self.flagged:
@@ -465,6 +474,8 @@ class HistoryRun:
             waiting = set()
             for ci, ws in enumerate(self.waits):
                 for w in ws:
+                    if w.deferred:
+                        continue
                     for k in w.keys:
                         waiting.add((k, self.ids[ci]))
                         if lists.get(k):
@@ -478,7 +489,7 @@ class HistoryRun:
         for ci, k, seq in self.served_now:
             for cj, ws in enumerate(self.waits):
                 for w in ws:
-                    if k in w.keys and w.seq < seq:
+                    if k in w.keys and w.seq < seq and not w.deferred:
                         self.fail("fifo", "client %d (blocked later) was served from %r before client %d" % (ci, k, cj), step, (k, ci, cj))
 
     # ---- comparison with the code model + oracles, after an action has settled
@@ -576,13 +587,13 @@ class HistoryRun:
 
     def wait_deadlines(self):
         """harness view: deadlines of the unanswered blocking pops of live clients"""
-        return [w.t_send + w.timeout for ci, ws in enumerate(self.waits) for w in ws if w.timeout and not w.late and not self.closed[ci]]
+        return [w.t_send + w.timeout for ci, ws in enumerate(self.waits) for w in ws if w.timeout and not w.late and not w.deferred and not self.closed[ci]]
 
     def overdue(self):
         """harness view: (client, wait) whose deadline passed MARGIN_MS ago, unanswered and not yet reported"""
         t = self.now()
         return [(ci, ws[0]) for ci, ws in enumerate(self.waits)
-                if ws and not self.closed[ci] and ws[0].timeout and not ws[0].late and ws[0].t_send + ws[0].timeout + MARGIN_MS <= t]
+                if ws and not self.closed[ci] and ws[0].timeout and not ws[0].late and not ws[0].deferred and ws[0].t_send + ws[0].timeout + MARGIN_MS <= t]
 
     def tick(self, step, forced=False):
         """wait until the deadlines that are due have passed by MARGIN_MS, then run the deadline scan in the model;
@@ -642,7 +653,10 @@ class HistoryRun:
             elif self.now() >= limit:
                 w.late = True
                 self.fail("late-nil", "client %d: BLPOP sent at %d ms with timeout %d ms has no answer at %d ms" % (ci, w.t_send, w.timeout, self.now()), step, (ci, w.seq))
-        return self.settle_and_compare(step, expect, t, False)
+        ok = self.settle_and_compare(step, expect, t, False)
+        if self.now() > nxt - MARGIN_MS:
+            self.overrun = True         # the comparison ran into the next deadline (machine under load): inconclusive, re-run
+        return ok
 
     def do(self, action):
         """execute one action on both sides; False = stop this history (states diverged or action not applicable)"""
@@ -716,7 +730,7 @@ class HistoryRun:
                     self.seq += 1
                     w_ = Wait([self.keys[i] for i in cmd[2]], t, cmd[3], self.seq)
                     if self.S.facts["defer_batch"] and (newwaits or self.waits[ci]):
-                        w_.late = True          # executed only after the earlier call is answered: no lateness bound from now
+                        w_.deferred = True      # executed only after the earlier call is answered
                     newwaits.append(w_)
             self.in_multi[ci] = inm
             self.waits[ci].extend(newwaits)
